@@ -464,6 +464,24 @@ func checkC02(ctx *Ctx) *Result {
 	normalisationTables(ctx, r, "R2.2")
 	// "origin allowed" rests on the origin tree: its structural necessary conditions
 	treeRules(ctx, r)
+	// "method listed after Fetch normalisation / header name listed
+	// case-insensitively": what validation stores is what the request-time
+	// lookups compare the browser's spelling with
+	r.rule("R2.3", "configured methods are stored Fetch-normalised and header names byte-lowercased (decision tables of the Methods and RequestHeaders validators)", 10)
+	if vf := ctx.ValidationFacts(); len(vf.Problems) > 0 {
+		r.undecided("R2.3", "validation-path", strings.Join(vf.Problems, "; "))
+	} else {
+		v := ctx.Validation()
+		sub := &Validation{Lists: map[string]*ValidatorTable{}}
+		for _, f := range []string{"Methods", "RequestHeaders"} {
+			if t := v.Lists[f]; t != nil {
+				sub.Lists[f] = t
+			}
+		}
+		reportMismatches(r, "R2.3", sub, vf, func(m mismatch) bool {
+			return m.Kind == "missing-effect" || m.Kind == "extra-effect" || m.Kind == "flag"
+		}, "a configured name is not recorded the way the request-time lookup expects")
+	}
 	return r
 }
 
